@@ -417,8 +417,18 @@ func (c *GroupCoordinator) OffsetCommit(ctx context.Context, req *kmsg.OffsetCom
 func (c *GroupCoordinator) OffsetFetch(ctx context.Context, req *kmsg.OffsetFetchRequest) (*kmsg.OffsetFetchResponse, error) {
 	resp := kmsg.NewPtrOffsetFetchResponse()
 	resp.ErrorCode = protocol.NONE
-	resp.Topics = make([]kmsg.OffsetFetchResponseTopic, 0, len(req.Topics))
-	for _, topic := range req.Topics {
+	reqTopics := req.Topics
+	if reqTopics == nil {
+		// A null topic list (v2+) asks for every offset the group has committed.
+		all, err := c.committedTopics(ctx, req.Group)
+		if err != nil {
+			resp.ErrorCode = protocol.UNKNOWN_SERVER_ERROR
+			return resp, nil
+		}
+		reqTopics = all
+	}
+	resp.Topics = make([]kmsg.OffsetFetchResponseTopic, 0, len(reqTopics))
+	for _, topic := range reqTopics {
 		topicResp := kmsg.NewOffsetFetchResponseTopic()
 		topicResp.Topic = topic.Topic
 		topicResp.Partitions = make([]kmsg.OffsetFetchResponseTopicPartition, 0, len(topic.Partitions))
@@ -448,6 +458,36 @@ func (c *GroupCoordinator) OffsetFetch(ctx context.Context, req *kmsg.OffsetFetc
 		resp.Topics = append(resp.Topics, topicResp)
 	}
 	return resp, nil
+}
+
+// committedTopics lists the topic partitions the group has committed offsets
+// for, in a stable order, in the shape of an OffsetFetch request.
+func (c *GroupCoordinator) committedTopics(ctx context.Context, group string) ([]kmsg.OffsetFetchRequestTopic, error) {
+	offsets, err := c.store.ListConsumerOffsets(ctx)
+	if err != nil {
+		return nil, err
+	}
+	byTopic := make(map[string][]int32)
+	for _, o := range offsets {
+		if o.Group == group {
+			byTopic[o.Topic] = append(byTopic[o.Topic], o.Partition)
+		}
+	}
+	names := make([]string, 0, len(byTopic))
+	for name := range byTopic {
+		names = append(names, name)
+	}
+	sort.Strings(names)
+	topics := make([]kmsg.OffsetFetchRequestTopic, 0, len(names))
+	for _, name := range names {
+		parts := byTopic[name]
+		sort.Slice(parts, func(i, j int) bool { return parts[i] < parts[j] })
+		t := kmsg.NewOffsetFetchRequestTopic()
+		t.Topic = name
+		t.Partitions = parts
+		topics = append(topics, t)
+	}
+	return topics, nil
 }
 
 func (c *GroupCoordinator) DescribeGroups(ctx context.Context, req *kmsg.DescribeGroupsRequest) (*kmsg.DescribeGroupsResponse, error) {
